@@ -386,6 +386,8 @@ def cfg_of(fn_node: ast.AST) -> CFG:
 def stmt_node_containing(cfg: CFG, target: ast.AST) -> Optional[Node]:
     """CFG node whose ast (statement / test / iter header / with header) contains `target`."""
     best = None
+    if target in cfg.by_ast:
+        return cfg.by_ast[target]
     for n in cfg.stmt_nodes():
         a = n.ast
         if a is None:
